@@ -313,7 +313,7 @@ Proof.
       destruct (existsb (topic_has_messages st) ch); reflexivity.
     + apply desc_same. reflexivity.
     + unfold step_desc, post, step, run_job.
-      destruct (sweep_each st (sort_ids ch) w fr) as [[[st1 fr1] wk] n] eqn:E.
+      destruct (sweep_each st ch w fr) as [[[st1 fr1] wk] n] eqn:E.
       left. cbn [done r_state]. apply sweep_each_evo in E. destruct E as [_ V].
       eapply evo_mono; [exact V| |apply incl_refl]. intros x x' _. apply StepR_same.
 Qed.
